@@ -13,8 +13,8 @@ def found : List (String × List String) := [
   ("glyph", ["anchors=", "appendAnchor", "appendComponent", "appendContour", "appendGuideline", "bottomMargin=", "clear", "clearAnchors", "clearComponents", "clearContours", "clearGuidelines", "contourIndex", "decomposeAllComponents", "decomposeComponent", "guidelines=", "height=", "image=", "insertAnchor", "insertComponent", "insertContour", "insertGuideline", "leftMargin=", "lib=", "markColor=", "name=", "note=", "removeAnchor", "removeComponent", "removeContour", "removeGuideline", "rightMargin=", "setDataFromSerialization", "topMargin=", "unicodes=", "verticalOrigin=", "width="]),
   ("guideline", ["angle=", "color=", "identifier=", "name=", "x=", "y="]),
   ("image", ["color=", "fileName=", "move", "transformation="]),
-  ("images", ["__delitem__", "__setitem__", "fileNames=", "save"]),
-  ("layer", ["__delitem__", "color=", "insertGlyph", "name=", "newGlyph", "reloadGlyphs"]),
+  ("images", ["__delitem__", "__setitem__", "fileNames=", "save", "setDataFromSerialization"]),
+  ("layer", ["__delitem__", "color=", "insertGlyph", "name=", "newGlyph", "reloadGlyphs", "setDataFromSerialization"]),
   ("layerSet", ["__delitem__", "defaultLayer=", "layerOrder=", "newLayer", "reloadLayers", "save", "setDataFromSerialization"])
 ]
 
@@ -30,7 +30,7 @@ def catalogue : List (String × List String) := [
   ("glyph", ["appendAnchor", "appendComponent", "appendContour", "appendGuideline", "bottomMargin=", "clear", "clearAnchors", "clearComponents", "clearContours", "clearGuidelines", "clearImage", "height=", "image=", "leftMargin=", "markColor=", "move", "name=", "note=", "removeAnchor", "removeComponent", "removeContour", "removeGuideline", "rightMargin=", "topMargin=", "unicode=", "unicodes=", "verticalOrigin=", "width="]),
   ("guideline", ["color=", "name=", "x="]),
   ("image", ["color=", "fileName=", "move", "transformation="]),
-  ("images", ["__delitem__", "__setitem__"]),
+  ("images", ["__delitem__", "__setitem__", "__setitem__unread"]),
   ("layer", ["__delitem__", "color=", "insertGlyph", "newGlyph"]),
   ("layerSet", ["__delitem__", "defaultLayer=", "layerOrder=", "newLayer"])
 ]
